@@ -293,6 +293,11 @@ func c03Run(ctx *run.Ctx, id run.CaseID) {
 		et := clip.EndType(r.Intn(7))
 		ml := gen.PickOf(r, 0, 0.5, 1, 1.5, 2, 5, 100)
 		at := gen.PickOf(r, 0, 0.25, 1, math.Abs(delta)/2, 5*math.Abs(delta))
+		if math.Abs(delta) >= 1e5 && at > 0 && at < math.Abs(delta)/1000 {
+			// a tiny explicit arc tolerance with a huge delta legitimately asks for ~10^5 arc steps per vertex
+			// (minutes of work, not a hang): keep the step budget meaningful by using the default tolerance instead
+			at = 0
+		}
 		paths := subj
 		if r.Bool() {
 			paths = open
